@@ -17,7 +17,20 @@ def jopt (o : Option String) : Json := match o with | some s => Json.str s | non
 def jint (n : Int) : Json := Json.str (toString n)
 def jnat (n : Nat) : Json := Json.num (n : Int)
 
-def squash (s : String) : String := String.ofList (s.toList.filter fun c => !c.isWhitespace)
+/-- Whitespace between tokens removed; what stands inside a string literal is kept (`feature = "rev a"`). -/
+def squashChars : List Char → Bool → Bool → List Char
+  | [], _, _ => []
+  | c :: cs, true, escaped =>
+    c :: (if escaped then squashChars cs true false
+          else if c == '\\' then squashChars cs true true
+          else if c == '"' then squashChars cs false false
+          else squashChars cs true false)
+  | c :: cs, false, _ =>
+    if c == '"' then c :: squashChars cs true false
+    else if c.isWhitespace then squashChars cs false false
+    else c :: squashChars cs false false
+
+def squash (s : String) : String := String.ofList (squashChars s.toList false false)
 def jcfg (c : Cfg) : Json := match c with | some s => Json.str (squash s) | none => Json.null
 
 def carrierName (signed : Bool) (bits : Nat) : String := (if signed then "i" else "u") ++ toString bits
